@@ -21,11 +21,11 @@ func fn1() *T {
 	}
 	return &T{}
 }
-func fn2() *T  { return &T{} }
-func fn3() *T  { return new(T) }
-func fn4() *T  { return fn3() }
-func fn5() *T  { return fn1() }
-func fn6() *T2 { return (*T2)(fn4()) }
+func fn2() *T          { return &T{} }
+func fn3() *T          { return new(T) }
+func fn4() *T          { return fn3() }
+func fn5() *T          { return fn1() }
+func fn6() *T2         { return (*T2)(fn4()) }
 func fn7() interface{} { return nil }
 func fn8() interface{} { return 1 }
 func fn9() []int {
@@ -34,12 +34,12 @@ func fn9() []int {
 	return y
 }
 func fn10(x []int) []int { return x[:1] }
-func fn11(x *T) *T      { return x }
-func fn12(x *T) *int    { return x.f }
-func fn13() *int        { return new(int) }
-func fn14() []int       { return make([]int, 0) }
-func fn15() []int       { return []int{} }
-func fn16() []int       { return nil }
+func fn11(x *T) *T       { return x }
+func fn12(x *T) *int     { return x.f }
+func fn13() *int         { return new(int) }
+func fn14() []int        { return make([]int, 0) }
+func fn15() []int        { return []int{} }
+func fn16() []int        { return nil }
 func fn17() error {
 	if true {
 		return newErr()
@@ -126,9 +126,9 @@ func fn43(b bool, x any) any {
 	return x
 }
 
-func ifn1() *int             { return nil }
-func ifn2() (int, *int, int) { return 0, nil, 0 }
-func notAStub()              {}
+func ifn1() *int                   { return nil }
+func ifn2() (int, *int, int)       { return 0, nil, 0 }
+func notAStub()                    {}
 func ifn3() (out1 int, out2 error) { notAStub(); return 0, nil }
 func ifn4() error                  { notAStub(); return nil }
 
@@ -221,7 +221,7 @@ func gen21() error {
 	}
 	return ifn4()
 }
-func gen22() interface{} { return gen6(false) }
+func gen22() interface{}                     { return gen6(false) }
 func gen25(x interface{}) (out1 interface{}) { return x.(interface{}) }
 func gen26(x interface{}) interface{} {
 	v, _ := x.(interface{})
@@ -290,7 +290,7 @@ func ts4(p *T) Doer {
 	}
 	return p
 }
-func ts5(p *T) Doer { return p }
+func ts5(p *T) Doer        { return p }
 func arr1(p *[2]int) []int { return p[:] }
 func arr2(s []int) *[2]int { return (*[2]int)(s) }
 func arr3(s []int) *[0]int { return (*[0]int)(s) }
@@ -359,4 +359,61 @@ func cmp4() *int {
 		return nil
 	}
 	return new(int)
+}
+
+// interface values loaded from memory, merged with nil (defect fixed in /repo 523d576)
+var gd Doer
+
+func ldI(p *int) Doer {
+	if p != nil {
+		return gd
+	}
+	return nil
+}
+func ldI2(pd *Doer, b bool) Doer {
+	if b {
+		return *pd
+	}
+	return nil
+}
+func ldI3(p *int) *T {
+	return ldI(p).(*T)
+}
+
+// default branch of a type switch: the value is the tag itself
+func tsDefault(i Doer) Doer {
+	switch x := i.(type) {
+	case nil:
+		return nil
+	default:
+		return x
+	}
+}
+func tsDefault2() any {
+	var p *T
+	var i any = p
+	switch x := i.(type) {
+	case int:
+		return x
+	default:
+		return x
+	}
+}
+func tsDefault3(p *T) any {
+	var i any = p
+	switch x := i.(type) {
+	case nil:
+		return 1
+	case Doer:
+		return x
+	default:
+		return x
+	}
+}
+func tsMulti(i any) any {
+	switch x := i.(type) {
+	case *T, *int:
+		return x
+	}
+	return nil
 }
